@@ -1,2 +1,3 @@
 //! Recording / model sinks.
 pub mod canon;
+pub mod tokrec;
